@@ -44,3 +44,18 @@ pub fn bitrev(i: u64, bits: u32) -> u64 {
     }
     r
 }
+
+/// Multiplicative order of 2 modulo p (p - 1 = 2^192 * 5 * 7 * 98714381 * 166848103).
+pub fn order_of_two() -> BigUint {
+    let p = crate::kit::prime();
+    let mut o = &p - BigUint::from(1u32);
+    let two = BigUint::from(2u32);
+    for q in [2u64, 5, 7, 98714381, 166848103] {
+        let q = BigUint::from(q);
+        while (&o % &q) == BigUint::from(0u32) && two.modpow(&(&o / &q), &p) == BigUint::from(1u32) {
+            o /= &q;
+        }
+    }
+    assert!(two.modpow(&o, &p) == BigUint::from(1u32));
+    o
+}
